@@ -1,3 +1,4 @@
+import FlowRecordProofs.Lemmas.KwCtor
 import FlowRecordProofs.Lemmas.Json
 /-!
 C14 — JSON lines output round-trips and is plain JSON.
@@ -228,3 +229,13 @@ def nullLaws : JsonTextLaws where
   roundtrip := by intro v h; subst h; simp
   oneLine := by intro v; decide
 end C14_nonvacuous
+
+
+/-- READERS BUILD RECORDS BY KEYWORD: for record types with a field named like a Python keyword the generated
+    constructor assigns `kwargs.get(k, v)` - a value handed over by keyword is the slot's value also when it is falsy
+    (0, "", False, an empty list), and `_unpack` tests `is not None`. The template text is regenerated from the source
+    and must equal the frozen text this meaning belongs to. -/
+theorem C14_keyword_constructor_keeps_values {V : Type} (x pos : V) :
+    (FlowRecord.Gen.tplKwInit = FlowRecord.KwCtor.frozenInit ∧ FlowRecord.Gen.tplKwUnpack = FlowRecord.KwCtor.frozenUnpack) ∧
+    FlowRecord.KwCtor.slotValue (some x) pos = x ∧ FlowRecord.KwCtor.slotValue (none : Option V) pos = pos :=
+  ⟨FlowRecord.KwCtor.template_is_frozen, rfl, rfl⟩
